@@ -75,6 +75,8 @@ FAULTS = {
     "position-beyond-24-bits-expression": None,
     "relocation-beyond-24-bits": None,
     "negative-position": ["*=0 - 0x8000", ".db 1"],
+    "runs-past-the-last-mapped-byte": None,  # rom dependent: two bytes written from the last byte of the last ROM bank
+    "runs-far-past-the-last-mapped-byte": None,
     "missing-include": [".include 'no_such_file.s'"],
     "missing-incbin": [".incbin 'no_such_file.bin'"],
     "missing-table": [".table 'no_such_file.tbl'"],
@@ -124,6 +126,10 @@ def fault_lines(cls, rom, ir=None):
     if cls == "unmapped-position":
         return ["*=0x700000" if rom == "low" else "*=0x001234"]
     base = 0x008000 if rom == "low" else 0xC08000
+    if cls == "runs-past-the-last-mapped-byte":
+        return ["*=0x6FFFFF" if rom == "low" else "*=0xFFFFFF", ".dw 0x1234"]
+    if cls == "runs-far-past-the-last-mapped-byte":
+        return ["*=0x6FFFFE" if rom == "low" else "*=0xFFFFFE", "lda.w 0x1234", "nop", ".dl 0x123456"]
     if cls == "position-beyond-24-bits":
         return [f"*=0x{0x1000000 + base:x}", ".db 1"]
     if cls == "position-beyond-24-bits-expression":
